@@ -137,8 +137,22 @@ func genRoute(r *Rng, k *SingleKnobs, depth int, receivers *[]string, intervals 
 		if depth == 1 {
 			n = r.Intn(3)
 		}
+		// Sibling routes with identical matchers share a group key (documented
+		// limitation of Route.Key); such degenerate trees are not generated.
+		seen := map[string]bool{}
 		for i := 0; i < n; i++ {
-			rt.Routes = append(rt.Routes, genRoute(r, k, depth+1, receivers, intervals))
+			c := genRoute(r, k, depth+1, receivers, intervals)
+			var ms []string
+			for _, m := range c.Matchers {
+				ms = append(ms, m.String())
+			}
+			sort.Strings(ms)
+			key := fmt.Sprint(ms)
+			if seen[key] {
+				continue
+			}
+			seen[key] = true
+			rt.Routes = append(rt.Routes, c)
 		}
 	}
 	return rt
@@ -397,9 +411,24 @@ func genSingle(seed uint64, prop string, k SingleKnobs) *Plan {
 		sites := []string{"dispatch.worker.recv", "dispatch.group.loaded", "dispatch.group.create", "dispatch.group.retry", "dispatch.maint.destroyed", "dispatch.flush.beforeDelete"}
 		n := rh.Range(1, 3)
 		for i := 0; i < n; i++ {
-			h := Hold{Site: Pick(rh, sites), Delay: rh.Dur(time.Millisecond, 3*time.Second) + 3}
-			if rh.Bool(0.5) && h.Site != "dispatch.maint.destroyed" && h.Site != "dispatch.flush.beforeDelete" {
-				h.Match = labelsKey(Pick(rh, sets))
+			h := Hold{Site: Pick(rh, sites)}
+			switch h.Site {
+			case "dispatch.maint.destroyed", "dispatch.flush.beforeDelete":
+				// delays only the sweeper / one group's run loop
+				h.Delay = rh.Dur(time.Millisecond, 3*time.Second) + 3
+			default:
+				// on the ingestion path: a targeted hold (one label set) may be long, a
+				// hold for every alert must stay short or the two workers back up
+				if rh.Bool(0.7) {
+					h.Match = labelsKey(Pick(rh, sets))
+					if h.Site == "dispatch.worker.recv" {
+						h.Delay = rh.Dur(time.Millisecond, 2*time.Second) + 3
+					} else {
+						h.Delay = rh.Dur(time.Millisecond, 300*time.Millisecond) + 3
+					}
+				} else {
+					h.Delay = rh.Dur(time.Millisecond, 30*time.Millisecond) + 3
+				}
 			}
 			p.Holds = append(p.Holds, h)
 		}
